@@ -206,6 +206,40 @@ def gaugeOps (add sub : Nat → Nat → Nat) : List GOp → Nat → List Nat
   | .decr b :: r, cur => gaugeOps add sub r (sub cur b)
   | .flush :: r, cur => cur :: gaugeOps add sub r cur
 
+/-! ### `FlushState::idle_counters` over MANY keys, with a `write_counter` that may be rejected
+
+state.rs, the counter loop of `State::flush`: for every `(key, counter)` of the snapshot — `counter.flush()` (which has
+already swapped `last`), then `is_counter_idle` / `mark_counter_as_idle` / `clear_counter_idle` on the `HashSet<Key>`,
+and only THEN `writer.write_counter`, whose failure (`result.any_failures()`: the line does not fit into a payload of
+`max_payload_len`) is logged and counted but changes neither the idle set nor the counter.  Keys are `Nat` ids of whole
+`Key`s (name AND labels: two keys sharing a name are two ids). -/
+
+/-- one visit: key, flushed delta, did the payload writer accept the line -/
+structure Visit where
+  k : Nat
+  delta : Nat
+  ok : Bool
+  deriving Repr, DecidableEq
+
+/-- (new idle set, decision "write" (false = `continue`), a message went out) -/
+def visit (idle : List Nat) (k delta : Nat) (ok : Bool) : List Nat × Bool × Bool :=
+  if delta == 0 then
+    (if idle.contains k then (idle, false, false) else (k :: idle, true, ok))
+  else (idle.filter (· != k), true, ok)
+
+/-- the visits of any number of flushes in the order `State::flush` makes them: (key, delta, decided, written) -/
+def visits : List Nat → List Visit → List (Nat × Nat × Bool × Bool)
+  | _, [] => []
+  | idle, v :: r =>
+    ((v.k, v.delta, (visit idle v.k v.delta v.ok).2.1, (visit idle v.k v.delta v.ok).2.2))
+      :: visits (visit idle v.k v.delta v.ok).1 r
+
+/-- the ONE-key reference: the send decision `decide` (non-legacy) folded over one key's own deltas:
+    (delta, decided, written) -/
+def oneKey : Bool → List (Nat × Bool) → List (Nat × Bool × Bool)
+  | _, [] => []
+  | idle, (d, ok) :: r => (d, (decide false idle d 0).1, ((decide false idle d 0).1 && ok)) :: oneKey (decide false idle d 0).2 r
+
 /-! ### the timestamp decision -/
 
 inductive Mode | conservative | aggressive
